@@ -32,6 +32,9 @@ def run(tier, seed):
         items.append(('case:%d' % s, src, ['-O1']))
     for i in range(3 if quick else 10):
         items.append(('samename:%d' % i, gen_same_name_program(rng.randrange(1 << 30)), ['-O1']))
+    for i in range(16 if quick else 120):
+        s = rng.randrange(1 << 30)
+        items.append(('tie:%d' % s, genprog.gen_greedy_tie_program(s)[1], ['-O1']))
     for n, s, a in runner.corpus_programs(('ok',)):
         if quick and len(items) > 70:
             break
